@@ -371,6 +371,9 @@ func Check(env Env, id, tier string) int {
 	var aggs []*phaseAgg
 	var found *FoundViolation
 	var foundPhase Phase
+	pendingInfra, reported := false, false
+	code := ExitOK
+	var replayPath string
 	plan := p.Plan(tier)
 	for pi, ph := range plan {
 		// each phase gets an equal share of what is left of the budget
@@ -386,15 +389,33 @@ func Check(env Env, id, tier string) int {
 			ph.Name, ph.Runs, agg.Evaluated, agg.Nontrivial, agg.Distinct, agg.States, agg.Steps, agg.WallS, map[bool]string{true: " (time cap reached)", false: ""}[agg.TimedOut])
 		if agg.Violation != nil {
 			found, foundPhase = agg.Violation, ph
+			if pi < len(plan)-1 && (agg.Violation.V.Class == "data-race") {
+				// A race report may fail to reproduce (it is probabilistic and
+				// may depend on what the worker process did before). Try to
+				// pin it down now; if that fails, the remaining phases — which
+				// decide from values, deterministically — still run, and the
+				// unconfirmed report counts as trouble only if they are silent.
+				rp, rc := report(env, p, ph, seed, found, known)
+				if rc == ExitInfra {
+					fmt.Printf("  the race report of phase %s could not be confirmed; continuing with the remaining phases\n", ph.Name)
+					pendingInfra = true
+					found = nil
+					continue
+				}
+				reported, replayPath, code = true, rp, rc
+			}
 			break
 		}
 	}
-	code := ExitOK
 	violations := 0
-	var replayPath string
 	if found != nil {
 		violations = 1
-		replayPath, code = report(env, p, foundPhase, seed, found, known)
+		if !reported {
+			replayPath, code = report(env, p, foundPhase, seed, found, known)
+		}
+	}
+	if found == nil && pendingInfra {
+		code = ExitInfra
 	}
 	// known findings: print one line per listed finding that was hit
 	for _, k := range known {
